@@ -14,7 +14,16 @@ pub struct Streamed {
 /// Feed `x` (single channel, replicated to all channels) through the resampler in its natural
 /// chunking until fewer than input_frames_next() frames remain.
 pub fn resample_all<T: Flt>(cfg: &Cfg, x: &[f64]) -> Result<Streamed, String> {
+    resample_all_pre::<T>(cfg, x, None)
+}
+
+/// As `resample_all`, after `set_resample_ratio_relative(pre, false)` on the fresh resampler
+/// (the delay is read after that call).
+pub fn resample_all_pre<T: Flt>(cfg: &Cfg, x: &[f64], pre: Option<f64>) -> Result<Streamed, String> {
     let mut r = cfg.build::<T>()?;
+    if let Some(rel) = pre {
+        r.set_resample_ratio_relative(rel, false).map_err(|e| format!("set_resample_ratio_relative({}) failed: {}", rel, e))?;
+    }
     let n = cfg.channels;
     let delay = r.output_delay();
     let mut out = Vec::new();
